@@ -41,3 +41,62 @@ Theorem C02_vv_le_spec :
   forall a b : vv, vv_le a b = true <-> vle a b.
 Proof. exact vv_le_spec. Qed.
 Print Assumptions C02_vv_le_spec.
+
+(* ==== appended by tools/mkprops.py (APPEND table) ==== *)
+
+Require Import LV.Base LV.VV LV.VVFacts LV.Path LV.PathSpec LV.PathTerm LV.PathDistinct LV.PathApi LV.Prog LV.Objects LV.Exec LV.Atomic LV.Ops LV.Check LV.AtomicFacts LV.AtomicCoherence.
+
+(* Nothing allowed is pruned without a reason: the candidate set is never empty and contains every mo-maximal store (AtomicCoherence.v) *)
+(* a live store with no mo-later live store is always a candidate *)
+Theorem C02_mo_maximal_is_candidate :
+  forall (s : atomic_state) (me : nat) (caus : vv) (ly : option nat) 
+         (o : ord) (l : list nat) (i : nat),
+       match_load_to_stores s me caus ly o = Some l ->
+       i < MAX_ATOMIC_HISTORY ->
+       i < at_cnt s ->
+       (forall j : nat,
+        j < MAX_ATOMIC_HISTORY ->
+        j < at_cnt s -> vv_lt (st_mo (get_store s i)) (st_mo (get_store s j)) = false) -> 
+       In i l.
+Proof. exact mo_maximal_is_candidate. Qed.
+Print Assumptions C02_mo_maximal_is_candidate.
+
+(* such a store exists as soon as one store was made *)
+Theorem C02_mo_maximal_exists :
+  forall s : atomic_state,
+       1 <= at_cnt s ->
+       exists i : nat,
+         i < MAX_ATOMIC_HISTORY /\
+         i < at_cnt s /\
+         (forall j : nat,
+          j < MAX_ATOMIC_HISTORY ->
+          j < at_cnt s -> vv_lt (st_mo (get_store s i)) (st_mo (get_store s j)) = false).
+Proof. exact mo_maximal_exists. Qed.
+Print Assumptions C02_mo_maximal_exists.
+
+(* hence a load always has a candidate *)
+Theorem C02_candidates_nonempty :
+  forall (s : atomic_state) (me : nat) (caus : vv) (ly : option nat) (o : ord) (l : list nat),
+       match_load_to_stores s me caus ly o = Some l -> 1 <= at_cnt s -> l <> [].
+Proof. exact candidates_nonempty. Qed.
+Print Assumptions C02_candidates_nonempty.
+
+(* and a slot is excluded only for one of the three stated reasons *)
+Theorem C02_load_candidates_spec :
+  forall (s : atomic_state) (me : nat) (caus : vv) (ly : option nat) (o : ord) (l : list nat),
+       match_load_to_stores s me caus ly o = Some l ->
+       forall i : nat,
+       In i l <->
+       i < MAX_ATOMIC_HISTORY /\
+       i < at_cnt s /\
+       (forall j : nat,
+        j < MAX_ATOMIC_HISTORY ->
+        j < at_cnt s ->
+        j <> i ->
+        vv_lt (st_mo (get_store s i)) (st_mo (get_store s j)) = true ->
+        is_seen_by_current (st_seen (get_store s j)) caus = false /\
+        is_seen_before_yield (st_seen (get_store s i)) me ly = false /\
+        is_seq_cst o && st_seqcst (get_store s i) && st_seqcst (get_store s j) = false).
+Proof. exact load_candidates_spec. Qed.
+Print Assumptions C02_load_candidates_spec.
+
